@@ -53,12 +53,15 @@ def run():
     ck.cov['behaviours_generated'] = len(hists) + len(hfull or [])
     # directed histories (always replayed): the release/re-allocate/rebind shapes around the set_cache shortcut
     directed = json.load(open(os.path.join(vlib.VERIF, 'lib', 'c03_directed.json')))
-    allh = [(h, False) for h in directed] + [(h, False) for h in chosen] + [(h, True) for h in chosen_full]
+    allh = [(h, False, None) for h in directed] + [(h, False, None) for h in chosen] + [(h, True, None) for h in chosen_full]
+    # the re-keying histories (K1 -> K2 -> K1 with randomx_vm_set_cache on a live interpreter / JIT light VM) on EVERY adversarial key pair:
+    # proper prefix, empty key, equal first 60 bytes, embedded NUL, K2 = K1 without its trailing NUL, table-growing pair, ...
+    allh += [(h, False, ks) for h in (directed[2], directed[10]) for ks in range(len(apiscen.KEYSETS))]
     scens = []
     combos = set()
     fullcombos = set()
-    for i, (h, full) in enumerate(allh):
-        ks = i % len(apiscen.KEYSETS)
+    for i, (h, full, ksfix) in enumerate(allh):
+        ks = ksfix if ksfix is not None else i % len(apiscen.KEYSETS)
         iset = (i // len(apiscen.KEYSETS)) % len(apiscen.INPUTSETS)
         if full:   # full-memory hashes run over a demand-initialised dataset (seconds each): few data combinations
             ks, iset = (0, 0) if not ck.thorough else (i % 3, 0)
